@@ -20,6 +20,8 @@ func main() {
 		cmdVerify(os.Args[2:])
 	case "check":
 		cmdCheck(os.Args[2:])
+	case "replay":
+		cmdReplay(os.Args[2:])
 	default:
 		fmt.Fprintln(os.Stderr, "unknown command")
 		os.Exit(2)
@@ -85,14 +87,10 @@ func cmdVerify(args []string) {
 	n := map[string]int{}
 	for _, ob := range obs {
 		n[ob.Status]++
-		if ob.Status != "discharged" || *showOK {
-			fmt.Printf("%-11s %s  [%s] %s  %s\n", ob.Status, ob.Name, ob.Pos, ob.Solver, ob.Output)
+		if ob.Status != "discharged" || *showOK || ob.TimeS > 2 {
+			fmt.Printf("%-11s %s  [%s] %s %.1fs %s\n", ob.Status, ob.Name, ob.Pos, ob.Solver, ob.TimeS, ob.Output)
 		}
 	}
 	fmt.Printf("obligations=%d %v solve=%.1fs total=%.1fs\n", len(obs), n, time.Since(t1).Seconds(), time.Since(t0).Seconds())
 }
 
-func cmdCheck(args []string) {
-	fmt.Fprintln(os.Stderr, "not implemented yet")
-	os.Exit(3)
-}
